@@ -1,11 +1,10 @@
 #!/bin/bash
-# processes /tmp/seedverify/queue (lines: <seed-dir> <name>) one at a time, forever; append lines to enqueue
+# worker: pops lines "<seed-dir> <name>" from /tmp/seedverify/queue (flock) and verifies them; several may run
 Q=/tmp/seedverify/queue; mkdir -p /tmp/seedverify; touch $Q
 while true; do
-  line=$(head -1 $Q)
+  line=$(flock $Q.lock bash -c "head -1 $Q; sed -i 1d $Q")
   if [ -z "$line" ]; then sleep 30; continue; fi
-  sed -i 1d $Q
   set -- $line
   [ -f /tmp/seedverify/$2.result ] && continue
-  SEED_JOBS=8 /verif/tools/seed_verify.sh "$1" "$2"
+  SEED_JOBS=${SEED_JOBS:-8} /verif/tools/seed_verify.sh "$1" "$2"
 done
